@@ -207,6 +207,75 @@ theorem model_pipeline_no_flag (pb : Problem) (placer : Placer) (radius : Nat) (
   obtain ⟨n, _, hn, hd⟩ := L.forall₂_right (model_pipeline_delivers pb placer radius orc mini out dom hpl h).2.2 q hq
   exact delivered_no_flag (hd k (by rw [← hn.1, ← hn.2.1]; exact hk))
 
+/-! ## what is expected, in the vocabulary of the problem
+
+`model_pipeline_delivers` states the deliveries through `sinkCores` / `sinkExits` of the sinks the router was given
+(`NetOf`: `sinksOf pb placement alloc net.sinks`).  Spelled out over placement, allocation and constraints: -/
+
+theorem sinksOf_complete {pb : Problem} {p : Rig.C02.Placement} {A : Rig.C05.Alloc} :
+    ∀ {vs : List Nat} {ss : List Sink}, sinksOf pb p A vs = some ss → ∀ v ∈ vs, ∃ s ∈ ss, sinkOf pb p A v = some s
+  | [], ss, h, v, hv => by simp at hv
+  | w :: r, ss, h, v, hv => by
+    simp only [sinksOf] at h
+    split at h
+    · rename_i s0 ss0 h1 h2
+      cases h
+      rcases List.mem_cons.1 hv with rfl | hv
+      · exact ⟨s0, by simp, h1⟩
+      · obtain ⟨s, hs, h'⟩ := sinksOf_complete h2 v hv
+        exact ⟨s, List.mem_cons_of_mem _ hs, h'⟩
+    · cases h
+
+/-- **The expected core deliveries, in the vocabulary of the problem**: `(c, i)` is expected for a net with sink
+vertices `vs` iff some sink vertex without RouteEndpointConstraint is placed on chip `c` and was allocated a range of
+the core resource that contains `i`. -/
+theorem expected_cores {pb : Problem} {p : Rig.C02.Placement} {A : Rig.C05.Alloc} {vs : List Nat} {ss : List Sink}
+    (h : sinksOf pb p A vs = some ss) (c : Chip) (i : Nat) :
+    (c, i) ∈ sinkCores ss ↔ ∃ v ∈ vs, chipOf p v = some c ∧ endpointOf pb.cs v = none ∧
+      ∃ sl, coresOf A pb.coreRes v = some sl ∧ sl.start.toNat ≤ i ∧ i < sl.stop.toNat := by
+  simp only [sinkCores, List.mem_flatMap]
+  constructor
+  · rintro ⟨s, hs, hm⟩
+    obtain ⟨v, hv, hsv⟩ := L.sinksOf_mem h s hs
+    obtain ⟨_, hc, _, h1, _⟩ := L.sinkOf_spec hsv
+    by_cases hk : s.kind = 1
+    · simp only [hk, if_true, List.mem_map, List.mem_range, Prod.mk.injEq] at hm
+      obtain ⟨j, hj, rfl, rfl⟩ := hm
+      obtain ⟨he, sl, hsl, ha, hb⟩ := h1 hk
+      exact ⟨v, hv, hc, he, sl, hsl, by omega, by omega⟩
+    · simp [hk] at hm
+  · rintro ⟨v, hv, hc, he, sl, hsl, h1, h2⟩
+    obtain ⟨s, hs, hsv⟩ := sinksOf_complete h v hv
+    refine ⟨s, hs, ?_⟩
+    unfold sinkOf at hsv
+    simp only [hc, he, hsl] at hsv
+    cases hsv
+    simp only [if_true, List.mem_map, List.mem_range, Prod.mk.injEq]
+    exact ⟨i - sl.start.toNat, by omega, trivial, by omega⟩
+
+/-- **The expected exits**: `(c, l)` is expected iff some sink vertex with an (effective) RouteEndpointConstraint to
+route `l` is placed on chip `c`. -/
+theorem expected_exits {pb : Problem} {p : Rig.C02.Placement} {A : Rig.C05.Alloc} {vs : List Nat} {ss : List Sink}
+    (h : sinksOf pb p A vs = some ss) (c : Chip) (l : Nat) :
+    (c, l) ∈ sinkExits ss ↔ ∃ v ∈ vs, chipOf p v = some c ∧ endpointOf pb.cs v = some l := by
+  simp only [sinkExits, List.mem_filterMap]
+  constructor
+  · rintro ⟨s, hs, hm⟩
+    obtain ⟨v, hv, hsv⟩ := L.sinksOf_mem h s hs
+    obtain ⟨_, hc, h2, _, _⟩ := L.sinkOf_spec hsv
+    by_cases hk : s.kind = 2
+    · simp only [hk, if_true, Option.some.injEq, Prod.mk.injEq] at hm
+      obtain ⟨rfl, rfl⟩ := hm
+      exact ⟨v, hv, hc, h2 hk⟩
+    · simp [hk] at hm
+  · rintro ⟨v, hv, hc, he⟩
+    obtain ⟨s, hs, hsv⟩ := sinksOf_complete h v hv
+    refine ⟨s, hs, ?_⟩
+    unfold sinkOf at hsv
+    simp only [hc, he] at hsv
+    cases hsv
+    simp
+
 /-! ## non-vacuity: a concrete problem in the domain, run through `modelPipeline`
 
 5x1 machine, 3 cores per chip of which core 0 is reserved (monitor), a device on the east link of chip (4,0)
